@@ -76,7 +76,7 @@ def block_boundary_subjects(rng, thorough=False, light=False):
     from the end (a search that works block by block — forwards or backwards — loses exactly these), optionally with an
     earlier decoy occurrence; yields (subject, pattern, offset)"""
     out = []
-    for L in ((1025, 2049) if light else (1025, 2049, 3001) if not thorough else (1025, 1026, 2048, 2049, 3001, 4097)):
+    for L in ((1025, 2049) if light else (1025, 2049, 3001) if not thorough else (1025, 2049, 3001, 4097)):
         for pat in ((b'##', b'Aa') if light else (b'##', b'Sep', b'Aa', b'abcd')):
             m = len(pat)
             marks = set()
@@ -91,7 +91,7 @@ def block_boundary_subjects(rng, thorough=False, light=False):
                 filler = bytearray(0x78 for _ in range(L))     # 'x': occurs in no pattern
                 filler[o:o + m] = pat
                 out.append((bytes(filler), pat, o))
-                if o > 40 and (o % 3 == 0 or thorough):
+                if o > 40 and (o % 3 == 0 or (thorough and o % 3 == 1)):
                     f2 = bytearray(filler)
                     f2[7:7 + m] = pat                          # an earlier occurrence: the wrong answer of a lossy search
                     out.append((bytes(f2), pat, o))
